@@ -181,6 +181,9 @@ def c10_2(rep, ix, R="C10.2"):
                     order.append("remove")
                 elif isinstance(s, ast.Expr) and re.fullmatch(r"%s\.addErrorListener\(BlackbirdErrorListener\(\)\)" % re.escape(pv), txt):
                     order.append("add")
+                elif isinstance(s, ast.Expr) and isinstance(s.value, ast.Call) and u(s.value.func) == "%s.addErrorListener" % pv and len(s.value.args) == 1 \
+                        and isinstance(s.value.args[0], ast.Name) and defaulted_listener(ix, f, s.value.args[0].id, s):
+                    order.append("add")       # an optional parameter that is the package's listener whenever the package itself calls
                 elif "%s.start()" % pv in txt:
                     order.append("start")
                     break
@@ -301,6 +304,38 @@ def c10_4(rep, ix):
         rep.check(ok, R, ix.site(f, n), "`%s`: the message starts 'Blackbird SyntaxError (line {line}:{column + 1})'" % key, "message `%s`" % shown, key="msg|" + key)
     if nraise == 0:
         raise Inconclusive("syntaxError: no raise statement with a message found")
+
+
+def defaulted_listener(ix, f, name, at):
+    """`name` is a parameter of f with default None that is replaced by BlackbirdErrorListener() when it is None before `at`, and no call
+    inside the package passes it: every load through the package's own entry points installs the package's listener"""
+    a = f.node.args
+    names = [x.arg for x in a.posonlyargs + a.args]
+    defaults = dict(zip(names[len(names) - len(a.defaults):], a.defaults))
+    for x, d in zip(a.kwonlyargs, a.kw_defaults):
+        if d is not None:
+            defaults[x.arg] = d
+    d = defaults.get(name)
+    if not (isinstance(d, ast.Constant) and d.value is None):
+        return False
+    filled = False
+    for s_ in f.node.body:
+        if pos(s_) >= pos(at):
+            break
+        if isinstance(s_, ast.If) and " ".join(u(s_.test).split()) in ("%s is None" % name, "not %s" % name) and not s_.orelse and len(s_.body) == 1 \
+                and " ".join(u(s_.body[0]).split()) == "%s = BlackbirdErrorListener()" % name:
+            filled = True
+        elif any(isinstance(x, ast.Name) and x.id == name and isinstance(x.ctx, ast.Store) for x in ast.walk(s_)):
+            filled = filled and False
+    if not filled:
+        return False
+    index_of = names.index(name) if name in names else None
+    for q, g in ix.funcs.items():
+        for c in ast.walk(g.node):
+            if isinstance(c, ast.Call) and (u(c.func) == f.name or u(c.func).endswith("." + f.name)):
+                if any(k.arg == name or k.arg is None for k in c.keywords) or (index_of is not None and len(c.args) > index_of) or any(isinstance(x, ast.Starred) for x in c.args):
+                    return False
+    return True
 
 
 def message_parts(fn, msg, at):
